@@ -13,4 +13,4 @@ mkdir -p "$w/repo" && (cd /repo && git archive HEAD | tar -x -C "$w/repo")
 (cd "$w/repo" && git init -q && git apply "$patch") || { echo "patch does not apply"; exit 2; }
 rsync -a --exclude .git --exclude replays --exclude 'evidence/*.json' /verif/ "$w/verif/"
 sed -i "s#=> /repo#=> $w/repo#" "$w/verif/harness/go.mod"
-cd "$w/verif" && VERIF_REPO="$w/repo" ./check "$prop" "$tier" 2>&1 | grep -E '^(VIOLATION|KNOWN|check |corr )' | sed "s#$w##g" | cut -c1-260 | head -60
+cd "$w/verif" && VERIF_REPO="$w/repo" ./check "$prop" "$tier" 2>&1 | grep -E '^(VIOLATION|KNOWN|check |corr )' | sed "s#$w##g" | cut -c1-260 | head -60; [ -n "${SEED_ISO_FULL:-}" ] && cat "$w/verif/replays/"*proof.json
